@@ -1,0 +1,14 @@
+//go:build verif
+
+package queue
+
+// VerifHook, when set by a verification harness, is called at the decision
+// points of the Processor (all of them outside its critical sections). It is
+// only compiled with the "verif" build tag.
+var VerifHook func(point string, kv ...any)
+
+func verifPoint(point string, kv ...any) {
+	if h := VerifHook; h != nil {
+		h(point, kv...)
+	}
+}
